@@ -127,6 +127,21 @@ def run(ctx) -> None:
         floor=1,
     )
     dispatcher_exception_flow(ctx, RDX, P)
+    RVE = ctx.rule(
+        "C07/vanishing-entry-costs-only-itself",
+        "a transient failure for one entry (a sub-directory that vanishes between its listing and its add-watch) is absorbed inside that "
+        "entry's iteration: the directories listed after it are still watched, in the contents walk of a new directory and in the "
+        "installation of a directory that arrives by a move (instances shared with C02: otherwise later changes inside existing "
+        "directories go unreported while every thread stays alive)",
+        floor=2,
+    )
+    from .c02 import check_rows as _rows
+
+    _sink = ctx.rule("C07/_shared-not-owned", "(rows of the shared bookkeeping contract that C07 does not own)", floor=0)
+    n0 = len(ctx.instances)
+    _rows(ctx, RVE, _sink, RVE, _sink, _sink, _sink)
+    ctx.instances[n0:] = [i for i in ctx.instances[n0:] if i.rule != _sink]
+    del ctx.rules[_sink], ctx.floors[_sink]
     RS = ctx.rule("C07/swallow-is-local", "an absorbed add-watch failure keeps the record that triggered it (the record is appended on every path that absorbs a failure)", floor=1)
 
     # ---------------------------------------------------------------- (a) reader exception flow
@@ -197,8 +212,10 @@ def run(ctx) -> None:
                 ctx.tabled("C07 head lookup self._path_for_wd[wd]", "wd is stored by _add_watch before the kernel can report it and removed only on IN_IGNORED, after which inotify(7) reports nothing for it; wd == -1 is filtered just above (that filter is itself a rule instance)")
             ctx.ok(RX, construct, loc, nontrivial=not tabled)
     # the wd == -1 filter dominates the head lookup
-    head_ok = all(p.conds().get("wd == -1") is not None for p in bp)
-    first_lookup_guarded = all(
+    # (a head lookup through .get() whose None result drops the record needs no such filter: an overflow record is in no map)
+    get_head = all(any(a == "self._path_for_wd.get(wd) is None" for a in p.conds()) and not any(e.kind == "subscript" and e.extra.get("container") == "self._path_for_wd" and e.extra.get("key") == "wd" for e in p.evs) for p in bp)
+    head_ok = get_head or all(p.conds().get("wd == -1") is not None for p in bp)
+    first_lookup_guarded = get_head or all(
         (p.conds().get("wd == -1") is True and not any(e.kind == "subscript" and e.extra.get("container") == "self._path_for_wd" for e in p.evs)) or p.conds().get("wd == -1") is False
         for p in bp
     )
